@@ -43,6 +43,13 @@ fn vertex_keys(l: &Layer, depth: u8, h: u64) -> [Key; 4] {
   [vkey(n, d0h, x, y - 1), vkey(n, d0h, x + 1, y), vkey(n, d0h, x, y + 1), vkey(n, d0h, x - 1, y)]
 }
 
+/// independent adjacency (used by the C19 oracle too): two cells of one depth touch iff they share a vertex point
+pub fn shares_vertex(l: &Layer, depth: u8, a: u64, b: u64) -> bool {
+  let ka = vertex_keys(l, depth, a);
+  let kb = vertex_keys(l, depth, b);
+  ka.iter().any(|k| kb.contains(k))
+}
+
 fn is_three_cell_point(n: i64, k: &Key) -> bool {
   match *k { Key::Belt(x, y) => y.abs() == n && x.rem_euclid(2 * n) == 0, _ => false }
 }
